@@ -8,6 +8,15 @@ import os
 import esrv
 
 PROPS_V = "Props/C01.v"
+# functions the hand-written model of this property was written against (normalised source stored under harness/corr/guards/;
+# a difference is reported as broken-correspondence: the theorems then no longer speak about the current source)
+SOURCE_GUARDS = [
+    ("esr/generation/generator.py", "check_tree"),
+    ("esr/generation/generator.py", "get_allowed_shapes"),
+    ("esr/generation/generator.py", "shape_to_functions"),
+    ("esr/generation/generator.py", "generate_equations"),
+]
+
 TRANSLATORS = []
 TRUSTED = [
     "Coq 8.16.1 kernel + vm_compute (no native_compute)",
